@@ -62,23 +62,33 @@ Definition rep_duration (r : arep) : Z :=
   | s0 :: _ => u64 (s_en (last (r_segs r) s0) - s_st s0)
   end.
 
-(** findAsset: uri == assetPath or uri has the prefix assetPath + "/" *)
-Fixpoint find_asset (l : list asset) (uri : string) : option asset :=
+(** findAsset: uri == assetPath or uri has the prefix assetPath + "/"; the longest matching path
+    wins (/repo 5fe544f), so the result does not depend on the order of the assets. *)
+Definition asset_matches (a : asset) (uri : string) : bool :=
+  String.eqb uri (a_path a) || String.prefix (a_path a +++ "/") uri.
+Fixpoint find_asset_best (l : list asset) (uri : string) (best : option asset) : option asset :=
   match l with
-  | [] => None
-  | a :: t => if String.eqb uri (a_path a) || String.prefix (a_path a +++ "/") uri then Some a
-              else find_asset t uri
+  | [] => best
+  | a :: t =>
+    if asset_matches a uri then
+      match best with
+      | Some b => if (String.length (a_path b) <? String.length (a_path a))%nat
+                  then find_asset_best t uri (Some a) else find_asset_best t uri best
+      | None => find_asset_best t uri (Some a)
+      end
+    else find_asset_best t uri best
   end.
+Definition find_asset (l : list asset) (uri : string) : option asset := find_asset_best l uri None.
 
-(** ** regexp match of MediaURI with (\d+) for the number; '.' matches any byte, the search is
-    unanchored, leftmost, the digit run greedy with backtracking. *)
-Fixpoint match_lit (pat s : string) : option string :=
-  match pat with
+(** ** regexp match of the media pattern: ^ QuoteMeta(pre) (\d+) QuoteMeta(suf) $  (/repo a92686d):
+    the whole segment path is pre ++ digits ++ suf with at least one digit. *)
+Fixpoint strip_prefix (pre s : string) : option string :=
+  match pre with
   | EmptyString => Some s
   | String p pt =>
     match s with
     | EmptyString => None
-    | String a t => if Ascii.eqb p "."%char || Ascii.eqb p a then match_lit pt t else None
+    | String a t => if Ascii.eqb p a then strip_prefix pt t else None
     end
   end.
 
@@ -92,28 +102,21 @@ Fixpoint span_digits (s : string) : string * string :=
     end
   end.
 
+(** the digit run is greedy; it can only give back digits if [suf] starts with digits, and then
+    the shorter run is found by backtracking *)
 Fixpoint try_digits (k : nat) (d rest suf : string) : option string :=
   match k with
   | O => None
   | S k' =>
     let dk := String.substring 0 k d in
     let rk := String.substring k (String.length d - k) d +++ rest in
-    match match_lit suf rk with
-    | Some _ => Some dk
-    | None => try_digits k' d rest suf
-    end
+    if String.eqb rk suf then Some dk else try_digits k' d rest suf
   end.
 
-Definition match_here (pre suf s : string) : option string :=
-  match match_lit pre s with
+Definition find_media (pre suf s : string) : option string :=
+  match strip_prefix pre s with
   | None => None
   | Some r => let '(d, rest) := span_digits r in try_digits (String.length d) d rest suf
-  end.
-
-Fixpoint find_media (pre suf s : string) : option string :=
-  match match_here pre suf s with
-  | Some d => Some d
-  | None => match s with EmptyString => None | String _ t => find_media pre suf t end
   end.
 
 Inductive repmatch := RMnone | RMbad | RMok (r : arep) (id : Z).
@@ -131,11 +134,14 @@ Fixpoint find_rep (reps : list arep) (segPart : string) : repmatch :=
 
 (** * Time validity (CheckTimeValidity, float64 as in the code) *)
 Inductive tv := TvOk | TvEarly | TvGone.
+Definition f_1e6 : float := f_of_int 1000000.
 Definition check_time (availS nowS tsbd ato : float) : tv :=
   if f_is_pinf ato then TvOk else
   let av := if f_gt0 ato then PrimFloat.sub availS ato else availS in
-  if PrimFloat.ltb nowS av then TvEarly
-  else if PrimFloat.ltb av (PrimFloat.sub nowS (PrimFloat.add tsbd (f_of_int 10))) then TvGone
+  let availUS := f_round (PrimFloat.mul av f_1e6) in
+  let nowUS := f_round (PrimFloat.mul nowS f_1e6) in
+  if PrimFloat.ltb nowUS availUS then TvEarly
+  else if PrimFloat.ltb availUS (PrimFloat.sub nowUS (f_round (PrimFloat.mul (PrimFloat.add tsbd (f_of_int 10)) f_1e6))) then TvGone
   else TvOk.
 
 Definition timed {A} (t : tv) (k : hm A) : hm A :=
@@ -415,7 +421,13 @@ Definition find_last_seg_nr (a : asset) (c : cfg) (nowMS : Z) (r : arep) : hm Z 
   let nowWraps := Z.quot (i64 (nowMS - startMS)) (a_loopMS a) in
   let nowRelMS := i64 (nowMS - (nowWraps * a_loopMS a + startMS)) in
   let n := lenZ (r_segs r) in
-  let relNow := u64 (Z.quot (i64 (nowRelMS * r_ts r)) 1000) in
+  let relNow0 := Z.quot (i64 (nowRelMS * r_ts r)) 1000 in
+  let loopDur := rep_duration r in
+  if (loopDur <=? relNow0) && (loopDur =? 0) then Ret (HPanic "app.(*asset).generateTimelineEntries: integer divide by zero") else
+  (* /repo 11d2203, b9dbb5f: a relative time beyond the loop duration carries into later loops *)
+  let '(nowWraps, relNow1) := if loopDur <=? relNow0 then (nowWraps + Z.quot relNow0 loopDur, Z.rem relNow0 loopDur)
+                              else (nowWraps, relNow0) in
+  let relNow := u64 relNow1 in
   match r_segs r with
   | [] => Ret (HPanic "app.(*asset).generateTimelineEntries: index out of range")
   | s0 :: _ =>
@@ -451,8 +463,10 @@ Fixpoint status_loop (a : asset) (c : cfg) (r mr : arep) (m : meta) (codes : lis
       if cit =? 0 then Ret (HPanic "app.calcStatusCode: integer divide by zero") else
       let nrWraps := Z.quot startTime cit in
       let wrapStartS := i64 (nrWraps * sc_cycle ss) in
+      (* /repo 497da16: the cycle start as wall-clock time, -1 when no segment has ended, + snr *)
       hdo firstNr0 <- (if 0 <? nrWraps then
-                         hdo l <- find_last_seg_nr a c (i64 (wrapStartS * 1000)) mr; Cont (l + 1)
+                         hdo l <- find_last_seg_nr a c (i64 ((c_startS c + wrapStartS) * 1000)) mr;
+                         Cont (start_nr c + (if l <? 0 then -1 else l) + 1)
                        else Cont (if fx_status_startnr fx then start_nr c else 0));
       hdo segTime <- find_seg_start_time a c firstNr0 mr;
       let firstNr := if segTime <? i64 (wrapStartS * m_ts m) then firstNr0 + 1 else firstNr0 in
@@ -626,7 +640,7 @@ Definition live_mpd (e : env) (a : asset) (c : cfg) (mpdName : string) (nowMS : 
     if (c_segTimeline c || c_segTimelineNr c) && f_is_pinf (c_ato c) then HStatus 500 "infinite availabilityTimeOffset" else
     match c_pph c with
     | None => ok200
-    | Some pph => split_period a c pph startTimeMS endMS
+    | Some pph => split_period a c pph (i64 (startTimeMS - startMS)) (i64 (endMS - startMS))  (* /repo 961c9dc *)
     end
   end.
 
